@@ -1,0 +1,120 @@
+//go:build verif
+
+// Contracts for the deductive verifier in /verif (govc). Comment-only.
+
+package stmt
+
+//@ # ---- a statement on the wire (C17): the JSON envelope of a query carries every clause, and decoding puts every
+//@ # clause back where it came from. The JSON library and the expression codec are abstracted:
+//@ #   exprBytes(e)      the bytes Marshal produces for expression e
+//@ #   exprOf(bytes)     the expression Unmarshal builds from bytes
+//@ #   doc*(value)       the fields the JSON library decodes from the document `value` into an innerQuery
+//@ # docType(bytes): the "type" member of an expression envelope
+//@ uf docType([]byte) string
+//@ uf exprBytes(ref) []byte
+//@ uf exprOf([]byte) ref
+//@ uf docCondition([]byte) []byte
+//@ uf docHaving([]byte) []byte
+//@ uf docSelect([]byte) [][]byte
+//@ uf docOrderBy([]byte) [][]byte
+//@ uf docGroupBy([]byte) []string
+//@ uf docMetricName([]byte) string
+//@ uf docNamespace([]byte) string
+//@ uf docLimit([]byte) int
+//@ uf docExplain([]byte) bool
+//@ uf docAllFields([]byte) bool
+//@ uf docIntervalRatio([]byte) int
+//@ uf docAutoGroupByTime([]byte) bool
+//@ uf docRangeStart([]byte) int64
+//@ uf docRangeEnd([]byte) int64
+//@ uf docInterval([]byte) int64
+//@ uf docStorageInterval([]byte) int64
+//@ func Marshal
+//@   assume
+//@   modifies nothing
+//@   ensures result == exprBytes(expr)
+//@ end
+//@ func Unmarshal
+//@   assume
+//@   modifies nothing
+//@   ensures result1 == nil ==> result0 == cast(exprOf(value), "Expr")
+//@ end
+//@ extern func github.com/lindb/common/pkg/encoding.JSONUnmarshal
+//@   modifies cast(v, "*innerQuery").Condition when typeis(v, "*innerQuery"), cast(v, "*innerQuery").Having when typeis(v, "*innerQuery"), cast(v, "*innerQuery").SelectItems when typeis(v, "*innerQuery"), cast(v, "*innerQuery").OrderByItems when typeis(v, "*innerQuery"), cast(v, "*innerQuery").GroupBy when typeis(v, "*innerQuery"), cast(v, "*innerQuery").MetricName when typeis(v, "*innerQuery"), cast(v, "*innerQuery").Namespace when typeis(v, "*innerQuery"), cast(v, "*innerQuery").Limit when typeis(v, "*innerQuery"), cast(v, "*innerQuery").Explain when typeis(v, "*innerQuery"), cast(v, "*innerQuery").AllFields when typeis(v, "*innerQuery"), cast(v, "*innerQuery").IntervalRatio when typeis(v, "*innerQuery"), cast(v, "*innerQuery").AutoGroupByTime when typeis(v, "*innerQuery"), cast(v, "*innerQuery").TimeRange when typeis(v, "*innerQuery"), cast(v, "*innerQuery").Interval when typeis(v, "*innerQuery"), cast(v, "*innerQuery").StorageInterval when typeis(v, "*innerQuery"), *cast(v, "*exprData") when typeis(v, "*exprData"), *cast(v, "*innerCallExpr") when typeis(v, "*innerCallExpr"), *cast(v, "*innerSelectItem") when typeis(v, "*innerSelectItem"), *cast(v, "*innerOrderByExpr") when typeis(v, "*innerOrderByExpr"), *cast(v, "*innerBinaryExpr") when typeis(v, "*innerBinaryExpr"), *cast(v, "*RegexExpr") when typeis(v, "*RegexExpr"), *cast(v, "*LikeExpr") when typeis(v, "*LikeExpr"), *cast(v, "*InExpr") when typeis(v, "*InExpr"), *cast(v, "*EqualsExpr") when typeis(v, "*EqualsExpr"), *cast(v, "*NumberLiteral") when typeis(v, "*NumberLiteral"), *cast(v, "*FieldExpr") when typeis(v, "*FieldExpr")
+//@   ensures (result == nil && typeis(v, "*innerQuery")) ==> (cast(v, "*innerQuery").Condition == docCondition(data) && cast(v, "*innerQuery").Having == docHaving(data) && cast(v, "*innerQuery").SelectItems == docSelect(data) && cast(v, "*innerQuery").OrderByItems == docOrderBy(data) && cast(v, "*innerQuery").GroupBy == docGroupBy(data) && cast(v, "*innerQuery").MetricName == docMetricName(data) && cast(v, "*innerQuery").Namespace == docNamespace(data) && cast(v, "*innerQuery").Limit == docLimit(data) && cast(v, "*innerQuery").Explain == docExplain(data) && cast(v, "*innerQuery").AllFields == docAllFields(data) && cast(v, "*innerQuery").IntervalRatio == docIntervalRatio(data) && cast(v, "*innerQuery").AutoGroupByTime == docAutoGroupByTime(data) && cast(v, "*innerQuery").TimeRange.Start == docRangeStart(data) && cast(v, "*innerQuery").TimeRange.End == docRangeEnd(data) && int64(cast(v, "*innerQuery").Interval) == docInterval(data) && int64(cast(v, "*innerQuery").StorageInterval) == docStorageInterval(data))
+//@   ensures (result == nil && typeis(v, "*exprData")) ==> cast(v, "*exprData").Type == docType(data)
+//@ end
+//@ # (the envelope tag decoded into an exprData is the document's tag)
+//@ func Query.UnmarshalJSON
+//@   prop C17
+//@   arith math
+//@   modifies *q
+//@   ensures[the_tag_condition_is_decoded_when_present] (result == nil && docCondition(value) != nil) ==> q.Condition == cast(exprOf(docCondition(value)), "Expr")
+//@   ensures[the_having_clause_is_decoded_when_present_whatever_else_is_present] (result == nil && docHaving(value) != nil) ==> q.Having == cast(exprOf(docHaving(value)), "Expr")
+//@   ensures[every_select_item_is_decoded_in_order] result == nil ==> (len(q.SelectItems) == len(docSelect(value)) && forall(i, 0, len(docSelect(value)), q.SelectItems[i] == cast(exprOf(docSelect(value)[i]), "Expr")))
+//@   ensures[every_order_by_item_is_decoded_in_order] result == nil ==> (len(q.OrderByItems) == len(docOrderBy(value)) && forall(i, 0, len(docOrderBy(value)), q.OrderByItems[i] == cast(exprOf(docOrderBy(value)[i]), "Expr")))
+//@   ensures[scalar_clauses_are_copied] result == nil ==> (q.MetricName == docMetricName(value) && q.Namespace == docNamespace(value) && q.Limit == docLimit(value) && q.Explain == docExplain(value) && q.AllFields == docAllFields(value) && q.IntervalRatio == docIntervalRatio(value) && q.AutoGroupByTime == docAutoGroupByTime(value) && q.GroupBy == docGroupBy(value) && q.TimeRange.Start == docRangeStart(value) && q.TimeRange.End == docRangeEnd(value) && int64(q.Interval) == docInterval(value) && int64(q.StorageInterval) == docStorageInterval(value))
+//@   loop 1 invariant rangeindex >= -1 && rangeindex < len(inner.SelectItems) && len(selectItems) == rangeindex + 1 && forall(i, 0, rangeindex + 1, selectItems[i] == cast(exprOf(inner.SelectItems[i]), "Expr"))
+//@   loop 2 invariant rangeindex >= -1 && rangeindex < len(inner.OrderByItems) && len(orderByItems) == rangeindex + 1 && forall(i, 0, rangeindex + 1, orderByItems[i] == cast(exprOf(inner.OrderByItems[i]), "Expr")) && len(selectItems) == len(inner.SelectItems) && forall(i, 0, len(inner.SelectItems), selectItems[i] == cast(exprOf(inner.SelectItems[i]), "Expr"))
+//@ end
+
+//@ # encoding side: the envelope handed to the JSON library carries every clause of the statement
+//@ uf envOf([]byte) ref
+//@ extern func github.com/lindb/common/pkg/encoding.JSONMarshal
+//@   modifies nothing
+//@   ensures envOf(result) == cast(v, "ref")
+//@   ensures typeis(v, "*exprData") ==> docType(result) == cast(v, "*exprData").Type
+//@   ensures typeis(v, "*innerSelectItem") ==> docType(result) == cast(v, "*innerSelectItem").exprData.Type
+//@   ensures typeis(v, "*innerOrderByExpr") ==> docType(result) == cast(v, "*innerOrderByExpr").exprData.Type
+//@   ensures typeis(v, "*innerCallExpr") ==> docType(result) == cast(v, "*innerCallExpr").Type
+//@   ensures typeis(v, "*innerBinaryExpr") ==> docType(result) == cast(v, "*innerBinaryExpr").Type
+//@ end
+//@ func Query.MarshalJSON
+//@   prop C17
+//@   arith math
+//@   modifies nothing
+//@   ensures[the_envelope_carries_every_clause] result1 == nil && cast(envOf(result0), "*innerQuery").Condition == exprBytes(q.Condition) && cast(envOf(result0), "*innerQuery").Having == exprBytes(q.Having) && cast(envOf(result0), "*innerQuery").MetricName == q.MetricName && cast(envOf(result0), "*innerQuery").Namespace == q.Namespace && cast(envOf(result0), "*innerQuery").Limit == q.Limit && cast(envOf(result0), "*innerQuery").Explain == q.Explain && cast(envOf(result0), "*innerQuery").AllFields == q.AllFields && cast(envOf(result0), "*innerQuery").IntervalRatio == q.IntervalRatio && cast(envOf(result0), "*innerQuery").AutoGroupByTime == q.AutoGroupByTime && cast(envOf(result0), "*innerQuery").GroupBy == q.GroupBy && cast(envOf(result0), "*innerQuery").TimeRange.Start == q.TimeRange.Start && cast(envOf(result0), "*innerQuery").TimeRange.End == q.TimeRange.End && cast(envOf(result0), "*innerQuery").Interval == q.Interval && cast(envOf(result0), "*innerQuery").StorageInterval == q.StorageInterval
+//@   ensures[every_select_and_order_by_item_is_encoded_in_order] len(cast(envOf(result0), "*innerQuery").SelectItems) == len(q.SelectItems) && forall(i, 0, len(q.SelectItems), cast(envOf(result0), "*innerQuery").SelectItems[i] == exprBytes(q.SelectItems[i])) && len(cast(envOf(result0), "*innerQuery").OrderByItems) == len(q.OrderByItems) && forall(i, 0, len(q.OrderByItems), cast(envOf(result0), "*innerQuery").OrderByItems[i] == exprBytes(q.OrderByItems[i]))
+//@   loop 1 invariant rangeindex >= -1 && rangeindex < len(q.SelectItems) && len(inner.SelectItems) == rangeindex + 1 && forall(i, 0, rangeindex + 1, inner.SelectItems[i] == exprBytes(q.SelectItems[i])) && len(inner.OrderByItems) == 0
+//@   loop 2 invariant rangeindex >= -1 && rangeindex < len(q.OrderByItems) && len(inner.OrderByItems) == rangeindex + 1 && forall(i, 0, rangeindex + 1, inner.OrderByItems[i] == exprBytes(q.OrderByItems[i])) && len(inner.SelectItems) == len(q.SelectItems) && forall(i, 0, len(q.SelectItems), inner.SelectItems[i] == exprBytes(q.SelectItems[i]))
+//@ end
+
+//@ # ---- expression envelopes: the type tag written for an expression kind is the tag under which that kind is
+//@ # rebuilt (second contracts, verified against the bodies; the first ones only name the results) ---------------
+//@ func Marshal#kinds
+//@   prop C17
+//@   modifies nothing
+//@   ensures[every_kind_gets_its_own_tag] (typeis(expr, "*RegexExpr") ==> docType(result) == "regex") && (typeis(expr, "*LikeExpr") ==> docType(result) == "like") && (typeis(expr, "*InExpr") ==> docType(result) == "in") && (typeis(expr, "*EqualsExpr") ==> docType(result) == "equals") && (typeis(expr, "*NumberLiteral") ==> docType(result) == "number") && (typeis(expr, "*FieldExpr") ==> docType(result) == "field") && (typeis(expr, "*NotExpr") ==> docType(result) == "not") && (typeis(expr, "*ParenExpr") ==> docType(result) == "paren") && (typeis(expr, "*SelectItem") ==> docType(result) == "selectItem") && (typeis(expr, "*OrderByExpr") ==> docType(result) == "orderBy") && (typeis(expr, "*CallExpr") ==> docType(result) == "call") && (typeis(expr, "*BinaryExpr") ==> docType(result) == "binary")
+//@ end
+//@ func unmarshal
+//@   prop C17
+//@   requires exprData != nil
+//@   modifies *
+//@   ensures result1 == nil ==> result0 == expr
+//@ end
+//@ func unmarshalCall
+//@   prop C17
+//@   modifies *
+//@   ensures result1 == nil ==> typeis(result0, "*CallExpr")
+//@ end
+//@ func unmarshalSelectItem
+//@   prop C17
+//@   modifies *
+//@   ensures result1 == nil ==> typeis(result0, "*SelectItem")
+//@ end
+//@ func unmarshalOrderByExpr
+//@   prop C17
+//@   modifies *
+//@   ensures result1 == nil ==> typeis(result0, "*OrderByExpr")
+//@ end
+//@ func unmarshalBinary
+//@   prop C17
+//@   modifies *
+//@   ensures result1 == nil ==> typeis(result0, "*BinaryExpr")
+//@ end
+//@ func Unmarshal#kinds
+//@   prop C17
+//@   modifies *
+//@   ensures[every_tag_rebuilds_its_own_kind] result1 == nil ==> ((docType(value) == "regex" ==> typeis(result0, "*RegexExpr")) && (docType(value) == "like" ==> typeis(result0, "*LikeExpr")) && (docType(value) == "in" ==> typeis(result0, "*InExpr")) && (docType(value) == "equals" ==> typeis(result0, "*EqualsExpr")) && (docType(value) == "number" ==> typeis(result0, "*NumberLiteral")) && (docType(value) == "field" ==> typeis(result0, "*FieldExpr")) && (docType(value) == "not" ==> typeis(result0, "*NotExpr")) && (docType(value) == "paren" ==> typeis(result0, "*ParenExpr")) && (docType(value) == "selectItem" ==> typeis(result0, "*SelectItem")) && (docType(value) == "orderBy" ==> typeis(result0, "*OrderByExpr")) && (docType(value) == "call" ==> typeis(result0, "*CallExpr")) && (docType(value) == "binary" ==> typeis(result0, "*BinaryExpr")))
+//@   ensures[unknown_tags_are_rejected] (docType(value) != "regex" && docType(value) != "like" && docType(value) != "in" && docType(value) != "equals" && docType(value) != "number" && docType(value) != "field" && docType(value) != "not" && docType(value) != "paren" && docType(value) != "selectItem" && docType(value) != "orderBy" && docType(value) != "call" && docType(value) != "binary") ==> result1 != nil
+//@ end
